@@ -577,6 +577,8 @@ def check_neg(case):
 
 
 def tag(case, f):
+    if f.kind == 'raised:ErrorInitIndexNonUnique' and 'derivation level_drop raised' in f.detail:
+        return 'level-drop-cannot-merge-equal-labels-from-adjacent-parents'
     if case.get('base', {}).get('kind') == 'auto' and f.kind == 'no-raise' and 'loc_to_iloc(absent -' in f.detail:
         return 'auto-index-loc-to-iloc-passthrough'
     return None
